@@ -90,24 +90,36 @@ for be, defs in BACKENDS.items():
             functions=['is_utf8_domain'], files=['partial/%s/is_utf8_domain.c' % be], assumptions=[A2, A3, A7, A9],
             note='IDN conversion modelled by its assumed contract: every return code; on failure a buffer may or may not have been produced'))
 
+A_TABLE = 'constant evaluation of the finite table: no symbolic input, every loop fully unwound with unwinding assertions (exact, not bounded)'
+add(Job('tld_table', 'harness/tld_table.c', no_dfcc=True, unwind=1600, object_bits=13, timeout=1500, expect=['assertion'], reach=0,
+        functions=['tld_list[] (data)'], files=['src/auto_tld.c', 'data/punycode.csv'], assumptions=[A_TABLE],
+        solvers=('minisat2',), note='spec_tld.h regenerated from data/punycode.csv by tools/csv2spec.py on every run'))
+add(Job('is_tld', 'harness/is_tld.c', enforce='is_tld', loops=True, object_bits=13, timeout=900, reach=2,
+        expect=['postcondition', 'loop_invariant_base', 'loop_invariant_step', 'loop_decreases'],
+        functions=['is_tld'], files=['src/is_tld.c', 'src/auto_tld.c'], assumptions=[A6, A9],
+        note='loop contract over the real 1591-row table; label length <= 254 (guaranteed by is_ascii_domain at every call site)'))
+
+A5 = 'A5: strspn models: is_ipv4 uses strspn(start,"0.") for its truth value only (both outcomes explored); is_ipv6 uses strspn(cp,hexdigits) with pointwise facts for the first five positions'
+add(Job('is_ipv4', 'harness/is_ipv4.c', enforce='is_ipv4', loops=True, timeout=1200, reach=3,
+        expect=['postcondition', 'loop_invariant_base', 'loop_invariant_step', 'loop_decreases', 'assigns'],
+        functions=['is_ipv4'], files=['src/is_ipv4_ipv6.c'], assumptions=[A1, A5, A9],
+        note='g_len <= 2^31-16; precondition from the call sites: the closing bracket follows the address'))
+add(Job('is_ipv6', 'harness/is_ipv6.c', enforce='is_ipv6', replace=['is_ipv4'], timeout=2400, reach=4,
+        unwindset=[('is_ipv6_wrapped_for_contract_checking.0', 18)],
+        expect=['postcondition', 'assigns', 'unwind'], functions=['is_ipv6'], files=['src/is_ipv4_ipv6.c'], assumptions=[A1, A5, A9],
+        note='no loop invariant: the loop provably runs <= 17 times for every input (unwinding assertion is an obligation); g_len <= 2^31-16'))
+add(Job('is_ipaddr', 'harness/is_ipaddr.c', enforce='is_ipaddr', replace=['is_ipv4', 'is_ipv6'], timeout=300, reach=2,
+        expect=['postcondition', 'assigns'], functions=['is_ipaddr'], files=['src/is_ipv4_ipv6.c'], assumptions=[A3, A9]))
+
 PROPS = {}
 
-HOOK_COMMITS = ['5cf62d3']
-NOTES = ('hooks.add_only is false for one reason only: a loop contract has to stand between a loop header and its body, so each hooked '
-         'loop header line "for (...) {" became "for (...)" + "EAV_VERIF_LOOP(id)" + "{" (brace moved to its own line; the `;` of one empty-bodied for loop likewise). '
-         'No other existing line is changed. All counts in evidence files are measured per run.')
-NOT_APPLICABLE = {}
-
-PROPS['C08'] = dict(
-    level='proof',
-    level_text='eav_is_email is proved against a closed-form policy contract for all 2^32 allow_tld masks, every callback result code and every prior state of the eav_t (loop-free, so the proof is complete); eav_init defaults and the tld_check=off short-circuit of the e-mail functions are postconditions of their own jobs.',
-    level_note='Trusted: CBMC/DFCC, the SAT back ends, malloc never fails (A2), the IDN message function model (A7). The callbacks are replaced by their contract (result range proved in the C01 jobs).',
-    quick=[('eav_is_email', 'all')],
-    thorough=[('eav_is_email@idn', 'all'), ('eav_is_email@idnkit', 'all')],
-    trusted_base=['stub headers for libidn / idnkit APIs (/verif/stubs/include)'],
-)
+from .proptable import *   # HOOK_COMMITS, NOTES, NOT_APPLICABLE, PROPS entries
+build_props(PROPS)
 
 
 def prepare(work):
     """regenerate specification inputs from /repo's data files (spec_tld.h)"""
-    return
+    import importlib.util
+    spec = importlib.util.spec_from_file_location('csv2spec', os.path.join(VERIF, 'tools', 'csv2spec.py'))
+    m = importlib.util.module_from_spec(spec); spec.loader.exec_module(m)
+    m.main(REPO, os.path.join(work, 'spec_tld.h'))
